@@ -164,7 +164,8 @@ pub fn gen_c06(seed: u64, thorough: bool) {
         let mut c = random_cepstrum(&mut rng, nmcp, alpha, 2.0);
         // value class: a gain term far from 0 on either side — the response scales with exp(c0) whatever its size, samples of
         // magnitude 1e5 or 1e-6 included (seeded change C06h: output samples limited to the 16-bit PCM range)
-        if i % 6 == 3 { c[0] = if rng.chance(0.6) { rng.uniform(6.0, 11.0) } else { rng.uniform(-14.0, -6.0) }; }
+        if i % 6 == 3 { c[0] = match rng.below(4) { 0 | 1 => rng.uniform(6.0, 11.0), 2 => rng.uniform(-14.0, -6.0), _ => rng.uniform(-60.0, -20.0) }; }
+        // … down to responses of magnitude 1e-26 (seeded change C06i: a "denormal guard" with f64::EPSILON as its limit)
         // one pulse, observed for one frame of rate/20 - 1 samples (no second pulse at the 20 Hz pitch floor); the
         // filter does not depend on the rate, so a response that has not died out is observed at 4x, 16x, 64x the rate
         let mut mult = 1usize;
